@@ -37,6 +37,7 @@ def para_story(rng, sid, pool):
 
 
 def run(s):
+    K.hostile_callers(s)
     q = s.tier == 'quick'
     for k_, txt_ in enumerate(K.idless_states()):
         if s.mine(k_):
